@@ -1,6 +1,6 @@
 SPECIFICATION Spec
 CONSTANTS
   DoExport = TRUE
-  EnvNames = {"A", "B"}
+  EnvNames = {"A", "B", "a"}
 INVARIANTS InvInjective Export
 CHECK_DEADLOCK FALSE
